@@ -64,3 +64,12 @@ LEVEL_TEXT = ("Kernel-checked refinement of the nested model (both families, ran
               "model trace = flat specification trace). The model is tied to the code by executing random and hand-written "
               "programs on the real types for every shape with a dump after every step; the flat specification is also "
               "evaluated directly against the implementation's observations.")
+
+
+LEVEL_NOTE = ("Trusted: Lean kernel (leanchecker re-check in thorough); axioms propext/Classical.choice/Quot.sound only (audited every run); "
+              "the hand-written model of the array types (SLV/Model/MArr*.lean: nested Vec storage, MultiRange odometer, Iter/IterMut state "
+              "machines, constructors with panics as none) tied to /repo by the array-program correspondence check (harness_arr runs the "
+              "real types for every shape/family/index kind and the Lean driver compares observation traces token by token); itertools' "
+              "iproduct! and Vec are modelled, not verified; no translation tie for this part.")
+TECHNIQUE = ("Lean 4 refinement theorems (nested model = flat-vector spec for every program; odometer = lexicographic product for every "
+             "rank and size) + trace-level correspondence check against the Rust types")
